@@ -48,7 +48,10 @@ def handle (op : String) (j : Json) : Json :=
     | none => jErr "bad join type"
   | "pandas" =>
     match jt j with
-    | some t => jTable (PandasMerge.merge t lk rk ls rs L R)
+    | some t =>
+      match PandasMerge.merge t lk rk ls rs L R with
+      | .ok tb => jObj [("ok", jTable tb)]
+      | .error e => jObj [("err", Json.str e)]
     | none => jErr "bad join type"
   | "arrow" =>
     match jt j with
